@@ -224,6 +224,34 @@ fn check_modify(input: &ModIn, case: &mut Case) -> Result<(), Fail> {
         ensure!(out[o.rdata_off..o.end] == rd[..], "c09:modify-rdata", "{}: RDATA {} expected {}", what, hex(&out[o.rdata_off..o.end]), hex(&rd));
         ensure!(w.flags_word & 15 == new_rcode & 15, "c09:header-nibble", "{}: header RCODE nibble {} for response code {}", what, w.flags_word & 15, new_rcode);
     }
+    // The additional section of the received packet is then edited as well (cleared, last record dropped, cut to one
+    // record): the packet still has EDNS data set, so exactly one OPT is written and counted, wherever the OPT stood
+    // in the received message.
+    let edit = p.id % 4;
+    if edit != 0 && !pk.additional_records.is_empty() {
+        let before = pk.additional_records.len();
+        lib("additional_records edit", || match edit {
+            1 => pk.additional_records.clear(),
+            2 => {
+                pk.additional_records.pop();
+            }
+            _ => pk.additional_records.truncate(1),
+        })?;
+        let left = pk.additional_records.len();
+        case.class(format!("additional-edited:opt-was-at-{}-of-{}:left-{}", opts.edns_pos.min(before), before, left.min(2)));
+        for compressed in [false, true] {
+            if !base_ok[compressed as usize] {
+                continue;
+            }
+            let out = if compressed { ser_compressed(&pk) } else { ser_plain(&pk) }.map_err(|f| Fail::new("c09:build-failed", f.msg))?;
+            let what = format!("{} output after the additional section went from {} to {} records (OPT received at position {})", if compressed { "compressed" } else { "plain" }, before, left, opts.edns_pos.min(before));
+            let w = walk(&out).map_err(|e| Fail::new("c09:unwalkable", format!("{} does not walk: {:?}; {}", what, e, hex(&out[..out.len().min(60)]))))?;
+            let n = w.records.iter().filter(|r| r.rtype == 41 && r.section == 2).count();
+            ensure!(n == 1, "c09:opt-count", "{}: {} OPT records written", what, n);
+            ensure!(w.counts[3] as usize == left + 1, "c09:opt-not-counted", "{}: ARCOUNT {} for {} records and the OPT", what, w.counts[3], left);
+            ensure!(w.end == out.len(), "c09:opt-count", "{}: entries end at {} of {} octets", what, w.end, out.len());
+        }
+    }
     Ok(())
 }
 
